@@ -15,11 +15,17 @@ import sys
 import time
 
 VERIF = os.path.dirname(os.path.dirname(os.path.abspath(__file__)))
+# maintenance runs (mutant self-tests) write evidence/replays elsewhere and import a patched copy of mako
+OUT = os.environ.get("VERIF_OUT") or VERIF
+if os.environ.get("VERIF_MAKO_PATH"):
+    sys.path.insert(0, os.environ["VERIF_MAKO_PATH"])
 
 REGISTRY = {
     "C14": {"module": "engines.c14_lookup", "level": "exploration", "quick": 36000, "thorough": 700000},
     "C15": {"module": "engines.c15_modfiles", "level": "fault_enumeration", "quick": 1500, "thorough": 30000,
             "per_run_timeout": 180.0, "determinism_sample": 48, "shrink_budget": 60.0},
+    "C16": {"module": "engines.c16_threads", "level": "exploration", "quick": 12000, "thorough": 400000,
+            "per_run_timeout": 300.0, "shrink_budget": 40.0, "determinism_sample": 240},
 }
 
 PINNED_HASHSEED = "0"
@@ -66,7 +72,7 @@ def write_replay(prop, engine, trace, violation, result, minimised_from=None):
     sig = violation["signature"]
     safe = "".join(c if c.isalnum() else "-" for c in sig.split("/", 1)[-1])[:60]
     name = "%s-%s-%s.json" % (prop, safe, stable_hash(trace)[:10])
-    path = os.path.join(VERIF, "replays", name)
+    path = os.path.join(OUT, "replays", name)
     doc = dict(trace)
     doc.update({
         "format": 1, "property": prop, "engine": engine.NAME, "signature": sig,
@@ -165,6 +171,13 @@ def run_check(prop, tier, runs=None, workers=16, seed=None, start=0):
         if res is None:
             agg.harness_errors.append({"what": "unreproducible", "detail": "run %d signature %s did not reproduce" % (idx, sig)})
             continue
+        if res.get("trace_patch"):
+            # make the replay file explicit: the schedule actually taken, not the seed that produced it
+            explicit = dict(small)
+            explicit.update(res["trace_patch"])
+            res2 = shrink.fails_with(engine, explicit, sig)
+            if res2 is not None:
+                small, res = explicit, res2
         vv = [x for x in res["violations"] if x["signature"] == sig][0]
         mf = {"size": size, "shrink_tries": tries, "run_index": idx}
         if hasattr(engine, "trace_size"):
@@ -181,8 +194,8 @@ def run_check(prop, tier, runs=None, workers=16, seed=None, start=0):
         agg.harness_errors.append({"what": "nondeterminism", "detail": "event digests differ for run indices %r" % divergent[:10]})
     wall = time.time() - t_start
     ev = build_evidence(prop, spec, engine, tier, seed, agg, wall, wall_main, determinism, known_hit, reported, n, start)
-    os.makedirs(os.path.join(VERIF, "evidence"), exist_ok=True)
-    with open(os.path.join(VERIF, "evidence", prop + ".json"), "w") as f:
+    os.makedirs(os.path.join(OUT, "evidence"), exist_ok=True)
+    with open(os.path.join(OUT, "evidence", prop + ".json"), "w") as f:
         json.dump(ev, f, indent=1, sort_keys=True, default=str)
     for ln in lines:
         print(ln)
@@ -238,9 +251,63 @@ def build_evidence(prop, spec, engine, tier, seed, agg, wall, wall_main, determi
     }
 
 
+def selftest_mutants(names, runs_override=None):
+    """Sensitivity self-test: apply each mutants/*.patch to a scratch copy of /repo's mako package
+    (on tmpfs, removed afterwards), point the owning check at it and require a VIOLATION whose
+    signature starts with one of the expected prefixes.  Maintenance command, not a property check."""
+    import shutil
+    import tempfile
+
+    with open(os.path.join(VERIF, "mutants", "index.json")) as f:
+        index = json.load(f)
+    base = "/dev/shm" if os.path.isdir("/dev/shm") else tempfile.gettempdir()
+    failures = 0
+    rows = []
+    for name in sorted(index):
+        if names and name not in names:
+            continue
+        meta = index[name]
+        work = tempfile.mkdtemp(prefix="mako-verif-mutant-", dir=base)
+        try:
+            shutil.copytree("/repo/mako", os.path.join(work, "mako"), ignore=shutil.ignore_patterns("__pycache__"))
+            p = subprocess.run(["patch", "-p1", "-s", "-d", work, "-i", os.path.join(VERIF, "mutants", name)],
+                               stdout=subprocess.PIPE, stderr=subprocess.STDOUT)
+            if p.returncode != 0:
+                print("MUTANT %s: patch does not apply: %s" % (name, p.stdout.decode()[-300:]))
+                failures += 1
+                continue
+            for prop in meta["properties"]:
+                env = dict(os.environ)
+                env["VERIF_MAKO_PATH"] = work
+                env["VERIF_OUT"] = os.path.join(work, "out")
+                env["PYTHONDONTWRITEBYTECODE"] = "1"
+                cmd = [sys.executable, "-m", "vsim.cli", prop, "--tier", "quick"]
+                runs = runs_override or meta.get("runs", {}).get(prop)
+                if runs:
+                    cmd += ["--runs", str(runs)]
+                t0 = time.time()
+                r = subprocess.run(cmd, cwd=VERIF, env=env, stdout=subprocess.PIPE, stderr=subprocess.STDOUT)
+                out = r.stdout.decode("utf-8", "replace")
+                sigs = [ln.split("signature=", 1)[1].split(" ", 1)[0] for ln in out.splitlines() if "signature=" in ln]
+                want = meta.get("expect", {}).get(prop, [])
+                hit = [sg for sg in sigs if any(sg.startswith(w) for w in want)] if want else sigs
+                ok = r.returncode == 1 and bool(hit)
+                rows.append((name, prop, ok, sigs, round(time.time() - t0, 1)))
+                print("MUTANT %-44s %s %s exit=%d %.0fs signatures=%s" % (name, prop, "CAUGHT" if ok else "MISSED", r.returncode,
+                                                                       time.time() - t0, sigs))
+                if not ok:
+                    failures += 1
+                    print(out[-1200:])
+        finally:
+            shutil.rmtree(work, ignore_errors=True)
+    print("selftest-mutants: %d checked, %d missed" % (len(rows), failures))
+    return 1 if failures else 0
+
+
 def main():
     ap = argparse.ArgumentParser()
     ap.add_argument("target", nargs="?")
+    ap.add_argument("names", nargs="*")
     ap.add_argument("--tier", default=os.environ.get("VERIF_TIER", "quick"), choices=("quick", "thorough"))
     ap.add_argument("--runs", type=int)
     ap.add_argument("--start", type=int, default=0)
@@ -251,6 +318,8 @@ def main():
     if args.replay:
         sys.exit(replay_file(args.replay, args.quiet))
     reexec_pinned()
+    if args.target == "selftest-mutants":
+        sys.exit(selftest_mutants(args.names, args.runs))
     if args.target in REGISTRY:
         sys.exit(run_check(args.target, args.tier, args.runs, args.workers, start=args.start))
     ap.error("unknown target %r (properties: %s)" % (args.target, ", ".join(sorted(REGISTRY))))
